@@ -115,6 +115,7 @@ def run_c05(prop, tier, seed):
         fam += G.sample(G.family(3), 600, seed)
     else:
         fam += G.family(3, with_macros=True)
+    fam += G.block_in_loop_family()
     # the repository's own fixtures
     fixtures = []
     fx_dir = os.path.join(REPO, 'minijinja/tests/inputs')
